@@ -10,8 +10,8 @@
 (*     every error path - equal those observed when it was ENTERED         *)
 (*     (relative form of DepthIsNesting / ScopeBalanced / SpecsBalanced);  *)
 (*   - every depth / scope event changes its counter by exactly one;       *)
-(*   - retry passes of one sibling list strictly shrink (PendingShrinks)   *)
-(*     and a pass reports exactly its failed tags as remaining;            *)
+(*   - retry passes of one sibling list never grow, their number is        *)
+(*     bounded, and a pass reports exactly its failed tags as remaining;   *)
 (*   - loop iterations are counted one by one;                             *)
 (*   - the path / bearing scanners advance on every step;                  *)
 (*   - the transform ends with a clean probe and an `end` event.           *)
@@ -96,12 +96,18 @@ TExit ==
 TPass ==
     /\ Is("pass") /\ Consume /\ running
     /\ IF pst # <<>> /\ Top(pst).st = "cont"
-       THEN \* next pass of the same list: exactly the failed tags, fewer than before
+       THEN \* next pass of the same list: exactly the failed tags; the list never
+            \* grows and the number of passes is bounded by the size of the list
+            \* (the pinned code shrinks it on every pass; an implementation that
+            \* also counts newly positioned elements as progress may repeat a size)
             /\ Ev.pending = Top(pst).rem
-            /\ Ev.pending < Top(pst).pending
-            /\ pst' = [pst EXCEPT ![Len(pst)] = [st |-> "in", pending |-> Ev.pending, seen |-> 0, failed |-> 0, rem |-> 0]]
+            /\ Ev.pending <= Top(pst).pending
+            /\ Top(pst).n < Top(pst).init * Top(pst).init + 1
+            /\ pst' = [pst EXCEPT ![Len(pst)] = [st |-> "in", pending |-> Ev.pending, seen |-> 0, failed |-> 0,
+                                                  rem |-> 0, n |-> Top(pst).n + 1, init |-> Top(pst).init]]
        ELSE /\ Ev.pending > 0
-            /\ pst' = Append(pst, [st |-> "in", pending |-> Ev.pending, seen |-> 0, failed |-> 0, rem |-> 0])
+            /\ pst' = Append(pst, [st |-> "in", pending |-> Ev.pending, seen |-> 0, failed |-> 0, rem |-> 0,
+                                   n |-> 1, init |-> Ev.pending])
     /\ UNCHANGED <<open, depth, h, els, specs, scanIdx, base, running>>
 
 TTag ==
@@ -118,7 +124,8 @@ TPassEnd ==
     /\ LET t == Top(pst)
        IN /\ t.seen = t.pending
           /\ Ev.remain = t.failed
-          /\ Ev.ok <=> (Ev.remain < t.pending)
+          /\ Ev.remain <= t.pending
+          /\ (Ev.remain < t.pending) => Ev.ok
           /\ pst' = IF Ev.ok /\ Ev.remain > 0
                     THEN [pst EXCEPT ![Len(pst)].st = "cont", ![Len(pst)].rem = Ev.remain]
                     ELSE Pop(pst)
